@@ -545,11 +545,17 @@ theorem no_stale_after_unexport {s : State} (h : Inv s) (q : Pk) (n : Nm) {p : P
 example : (unexport (run State.init sampleOps) 1 0).f.find 0 0 = none ∧
     (run State.init sampleOps).f.find 0 0 = some 12 := ⟨by decide, by decide⟩
 
+/-- after `(unintern 'n 'q)` / `makunbound` removed `q`'s own variable, no table anywhere holds it -/
+theorem no_stale_after_unintern {s : State} (h : Inv s) (q : Pk) (n : Nm)
+    (hown : s.v.cell q n = some q) (p : Pk) :
+    (unintern s q n).v.cell p n ≠ some q :=
+  (inv_unintern h q n).vars.no_dangling (Tab.remove_own_defs_none s.uses s.users hown) p
+
 /-- after a package removed its own variable with `makunbound`, no table anywhere holds it -/
 theorem no_stale_after_makunbound {s : State} (h : Inv s) (n : Nm)
     (hown : s.v.cell s.cur n = some s.cur) (p : Pk) :
     (makunbound s n).v.cell p n ≠ some s.cur :=
-  (inv_makunbound h n).vars.no_dangling (Tab.remove_own_defs_none s.uses s.users hown) p
+  no_stale_after_unintern h s.cur n hown p
 
 /-- after a package removed its own function with `fmakunbound`, no table anywhere holds it -/
 theorem no_stale_after_fmakunbound {s : State} (h : Inv s) (n : Nm)
@@ -601,5 +607,131 @@ theorem qualified_access {s : State} (h : Inv s) (c q : Pk) (n : Nm) (priv : Boo
 example : (run State.init sampleOps).v.qualVar 1 1 false = none ∧
     (run State.init sampleOps).v.qualVar 1 1 true = some 13 ∧
     (run State.init sampleOps).f.qualFun 2 1 0 false = some 12 := ⟨by decide, by decide, by decide⟩
+
+/-! ## extension: status of a name (`find-symbol`), qualified writes, statements over all histories -/
+
+/-- one table: the status read off the table (own exported / own internal / inherited / absent)
+    equals the status recomputed from the graph — for ANY graph, name conflicts included (the
+    status does not depend on which exporter was chosen) -/
+theorem TInv.status_eq_graph {uses : Pk → List Pk} {t : Tab} (h : TInv uses t) (c : Pk) (n : Nm) :
+    t.status c n = graphStatus t.defs uses c n := by
+  unfold Tab.status graphStatus
+  cases he : t.entry c n with
+  | none =>
+    obtain ⟨h1, h2⟩ := h.entry_complete he
+    rw [h1, h2]; rfl
+  | some od =>
+    obtain ⟨o, d⟩ := od
+    rcases h.entry_sound he with ⟨e, hd⟩ | ⟨hd, hmem, hdo, hexp⟩
+    · subst e; rw [hd]; simp
+    · have hne : o ≠ c := by
+        intro e; subst e; rw [hd] at hdo; cases hdo
+      rw [hd]
+      have hemp : (candidates t.defs uses c n).isEmpty = false := by
+        cases hl : candidates t.defs uses c n with
+        | nil => rw [hl] at hmem; cases hmem
+        | cons a l => rfl
+      simp [hne, hemp]
+
+/-- **`find-symbol` agrees with the graph**: `:external` / `:internal` exactly for an own exported /
+    unexported definition, `:inherited` exactly when there is no own definition and a directly
+    used package exports the name, nothing otherwise (variable first, then function) -/
+theorem findSymbol_eq_graph {s : State} (h : Inv s) (c : Pk) (n : Nm) :
+    findSymbol s c n = symbolStatus s.v.defs s.f.defs s.uses c n := by
+  unfold findSymbol symbolStatus
+  rw [← h.vars.status_eq_graph c n, ← h.funs.status_eq_graph c n]
+  cases hv : s.v.entry c n with
+  | some od =>
+    obtain ⟨o, d⟩ := od
+    have hne : s.v.status c n ≠ 0 := by
+      unfold Tab.status; rw [hv]; dsimp only
+      by_cases h1 : o = c <;> by_cases h2 : d.exp = true <;> simp [h1, h2]
+    simp [hne]
+  | none =>
+    have hz : s.v.status c n = 0 := by unfold Tab.status; rw [hv]
+    rw [hz]
+    simp only [if_true]
+    cases hf : s.f.entry c n with
+    | none => unfold Tab.status; rw [hf]
+    | some od =>
+      obtain ⟨o, d⟩ := od
+      dsimp only
+      rcases h.funs.entry_sound hf with ⟨e, _⟩ | ⟨_, _, _, hexp⟩
+      · simp [e]
+      · simp [hexp]
+
+example : findSymbol (run State.init sampleOps) 0 0 = 3 ∧ findSymbol (run State.init sampleOps) 1 0 = 2 ∧
+    findSymbol (run State.init sampleOps) 1 1 = 1 ∧ findSymbol (run State.init sampleOps) 2 1 = 0 ∧
+    findSymbol (run State.init sampleOps) 0 1 = 1 := by decide
+
+/-- **after any history** (all operations of `Op`, the qualified forms, `intern`/`unintern` and the
+    Go-level `Define` included) and for any graph: what a package sees is its own definition or —
+    when it has none — an exported definition of a package it uses directly -/
+theorem lookup_sound_run (ops : List Op) {c o : Pk} {n : Nm} {d : Def} :
+    let s := run State.init ops
+    (s.v.entry c n = some (o, d) →
+      (o = c ∧ s.v.defs c n = some d) ∨
+      (s.v.defs c n = none ∧ o ∈ candidates s.v.defs s.uses c n ∧ s.v.defs o n = some d ∧ d.exp = true)) ∧
+    (s.f.entry c n = some (o, d) →
+      (o = c ∧ s.f.defs c n = some d) ∨
+      (s.f.defs c n = none ∧ o ∈ candidates s.f.defs s.uses c n ∧ s.f.defs o n = some d ∧ d.exp = true)) :=
+  lookup_sound (inv_run ops)
+
+/-- after any history: a name a package does not see has no own definition and no directly used
+    package exports it -/
+theorem lookup_complete_run (ops : List Op) {c : Pk} {n : Nm} :
+    let s := run State.init ops
+    (s.v.entry c n = none → s.v.defs c n = none ∧ candidates s.v.defs s.uses c n = []) ∧
+    (s.f.entry c n = none → s.f.defs c n = none ∧ candidates s.f.defs s.uses c n = []) :=
+  lookup_complete (inv_run ops)
+
+/-- after any history `find-symbol` reports the status the graph determines -/
+theorem findSymbol_run (ops : List Op) (c : Pk) (n : Nm) :
+    let s := run State.init ops
+    findSymbol s c n = symbolStatus s.v.defs s.f.defs s.uses c n :=
+  findSymbol_eq_graph (inv_run ops) c n
+
+/-- **writes through qualified names**: `(setq q::n v)` reaches any variable `q` owns and
+    `(setq q:n v)` an exported one (afterwards `q::n` reads `v`); an unexported variable is out
+    of reach of `q:n` (the state is unchanged) -/
+theorem qsetq_reaches {s : State} (h : Inv s) (q : Pk) (n : Nm) (priv : Bool) (v : Nat) {d : Def}
+    (hd : s.v.defs q n = some d) :
+    ((d.exp = true ∨ priv = true) → (qsetq s q n priv v).v.qualVar q n true = some v) ∧
+    (d.exp = false → priv = false → qsetq s q n priv v = s) := by
+  have hc : s.v.cell q n = some q := (h.vars.own q n).2 (by rw [hd]; rfl)
+  have he : s.v.entry q n = some (q, d) := Tab.entry_of hc hd
+  constructor
+  · intro hp
+    unfold qsetq
+    rw [he]
+    dsimp only
+    rw [if_pos hp]
+    dsimp only
+    unfold Tab.assign
+    rw [he]
+    dsimp only
+    have hc' : (s.v.setDef q n (some { d with val := some v })).cell q n = some q := hc
+    have hd' : (s.v.setDef q n (some { d with val := some v })).defs q n = some { d with val := some v } := by
+      simp [Tab.setDef]
+    unfold Tab.qualVar
+    rw [Tab.entry_of hc' hd']
+    simp
+  · intro h1 h2
+    unfold qsetq
+    rw [he]
+    simp [h1, h2]
+
+example : (qsetq (run State.init sampleOps) 1 1 true 99).v.qualVar 1 1 true = some 99 ∧
+    (qsetq (run State.init sampleOps) 1 1 false 99).v.qualVar 1 1 true = some 13 := ⟨by decide, by decide⟩
+
+/-- `(defvar q::n v)` never changes a bound variable of `q`, whoever is current -/
+theorem qdefvar_keeps_bound {s : State} (h : Inv s) (q : Pk) (n : Nm) (priv : Bool) (v : Option Nat)
+    {d : Def} (hd : s.v.defs q n = some d) (hb : d.val.isSome = true) :
+    qdefvar s q n priv v = s := by
+  have hc : s.v.cell q n = some q := (h.vars.own q n).2 (by rw [hd]; rfl)
+  have he : s.v.entry q n = some (q, d) := Tab.entry_of hc hd
+  unfold qdefvar
+  rw [he]
+  simp [hb]
 
 end SlipVerif.Pkg
